@@ -1,0 +1,111 @@
+//go:build verif
+
+package crlreader
+
+// ---- consumer interface
+
+
+//@ func CRLProcessor.StartUpdateCrl
+//@   props C06 C07
+//@   requires processorOK(self) && crlMetaInfo != nil
+//@   ensures processorOK(self)
+//@   assigns M.map[string][]uint8, X.ldbhas, X.fs
+//@ func CRLProcessor.InsertRevokedCertificate
+//@   props C06 C07 C01
+//@   requires processorOK(self) && entry != nil && entry.Issuer != nil && entry.RevokedCertificate != nil
+//@   ensures processorOK(self)
+//@   ensures[C01] stored: err == nil && typeis(self, crlstore.CRLPersisterProcessor) ==> added(as(self, crlstore.CRLPersisterProcessor).CRLStore, entryKey(rdnString(*entry.Issuer), decString(big(entry.RevokedCertificate.SerialNumber))))
+//@   assigns M.map[string][]uint8, X.ldbhas, X.fs
+//@ func CRLProcessor.UpdateExtendedMetaInfo
+//@   props C06 C07
+//@   requires processorOK(self) && info != nil
+//@   ensures processorOK(self)
+//@   assigns M.map[string][]uint8, X.ldbhas, X.fs
+//@ func CRLProcessor.UpdateSignatureCertificate
+//@   props C06 C07
+//@   requires processorOK(self) && entry != nil && entry.RawCertificate != nil
+//@   ensures processorOK(self)
+//@   assigns M.map[string][]uint8, X.ldbhas, X.fs
+
+//@ func CRLReader.ReadCRL
+//@   props C06 C07
+//@   requires processorOK(crlProcessor)
+//@   ensures processorOK(crlProcessor)
+//@   assigns M.map[string][]uint8, X.ldbhas, X.fs, X.stream, X.hash, E.uint8, E.any
+//@   ensures a: err == nil ==> ret != nil && ret.Issuer != nil 
+//@   ensures b: err == nil ==> ret.Signature != nil 
+//@   ensures c: err == nil ==> ret.HashAndVerifyStrategy != nil
+//@   ensures d: err == nil ==> ret.HashAndVerifyStrategy.VerifyStrategy != nil
+
+// ---- the streaming reader
+
+//@ func StreamingCRLFileReader.ReadCRL
+//@   props C06 C07 C04 C01
+
+//@ func parseRevokedCertificateList
+//@   props C06 C07 C01 C17
+//@   requires issuer != nil && processorOK(processor) && wrapperOK(reader)
+//@   ensures processorOK(processor)
+//@   assigns M.map[string][]uint8, X.ldbhas, X.fs, X.stream, X.hash, E.uint8, E.any
+//@   ensures[C01,C06] insert_error_propagates: called(CRLProcessor.InsertRevokedCertificate#1) && res(CRLProcessor.InsertRevokedCertificate#1) != nil ==> err != nil
+//@   ensures[C01,C06] read_error_propagates: called(ReadStruct#1) && res(ReadStruct#1) != nil ==> err != nil
+//@   loop 1 invariant processorOK(processor)
+//@   loop 1 body_ensures[C01,C06] every_entry_delivered: called(ReadStruct#1) && res(ReadStruct#1) == nil ==> called(CRLProcessor.InsertRevokedCertificate#1) && arg(CRLProcessor.InsertRevokedCertificate#1, 1).Issuer == issuer && arg(CRLProcessor.InsertRevokedCertificate#1, 1).RevokedCertificate == revokedCert
+//@   loop 1 iter_ensures[C01,C06] iteration_completes_only_after_insert: called(ReadStruct#1) && res(ReadStruct#1) == nil && called(CRLProcessor.InsertRevokedCertificate#1) && res(CRLProcessor.InsertRevokedCertificate#1) == nil
+
+//@ func versionExists
+//@   props C06 C07
+//@   requires wrapperOK(reader)
+//@   assigns X.stream, E.uint8
+//@ func nextUpdateTimeExists
+//@   props C06 C07
+//@   requires wrapperOK(reader)
+//@   assigns X.stream, E.uint8
+//@ func revokedCertificateListExists
+//@   props C06 C07
+//@   requires wrapperOK(reader)
+//@   assigns X.stream, E.uint8
+//@ func extensionsExists
+//@   props C06 C07
+//@   requires wrapperOK(reader)
+//@   assigns X.stream, E.uint8
+//@ func parseVersion
+//@   props C06 C07
+//@   requires wrapperOK(reader)
+//@   assigns X.stream, X.hash, E.uint8
+//@   ensures[C06] version_range: err == nil ==> 1 <= r0 && r0 <= 256
+//@ func parseExtensions
+//@   props C06 C07
+//@   requires wrapperOK(reader)
+//@   assigns X.stream, X.hash, E.uint8
+//@   ensures err == nil ==> ret != nil
+//@ func parseCRlNumberIfExists
+//@   props C06 C07
+//@   requires crlExtensions != nil
+//@   assigns X.stream, E.uint8
+//@ func readAlgorithmIdentifier
+//@   props C06 C07
+//@   requires readerOK(reader)
+//@   assigns X.stream, X.hash, E.uint8
+//@ func findAlgorithmIdentifierInCRL
+//@   props C06 C07
+//@   requires file != nil
+//@   assigns X.stream, X.fs, X.hash, E.uint8
+//@   ensures err == nil ==> ret != nil
+//@ func seekToCRLBegin
+//@   props C06 C07
+//@   requires crlFile != nil
+//@   assigns X.fs
+//@ func newHashingCRLReader
+//@   props C06 C07
+//@   requires crlFile != nil
+//@   assigns X.fs, X.stream
+//@   ensures ret.Reader != nil && !ret.CalculateSignature
+//@ func newHashingDERCRLReader
+//@   props C06 C07
+//@   pure
+//@   ensures ret.Reader != nil && !ret.CalculateSignature
+//@ func newHashingPEMCRLReader
+//@   props C06 C07
+//@   pure
+//@   ensures ret.Reader != nil && !ret.CalculateSignature
